@@ -1,16 +1,17 @@
 package props
 
 import (
-	"time"
-	"io"
+	"bytes"
 	"context"
 	"errors"
-	"bytes"
 	"fmt"
+	"io"
 	"math/rand"
 	"strings"
 	"sync"
+	"sync/atomic"
 	"testing"
+	"time"
 
 	tls "github.com/refraction-networking/utls"
 	"verifharness/mon"
@@ -581,7 +582,13 @@ func TestC01(t *testing.T) {
 			continue
 		}
 		// widen the window between the fast path and the handshake mutex (hook H10)
-		tls.VerifAttach(u.Conn, &tls.VerifPlan{Yield: func(point string) { time.Sleep(time.Duration(rg.Intn(300)) * time.Microsecond) }})
+		// the delays are drawn before the callers start: the hook runs on every caller's goroutine
+		delays := make([]time.Duration, 64)
+		for k := range delays {
+			delays[k] = time.Duration(rg.Intn(300)) * time.Microsecond
+		}
+		var delayIdx atomic.Int64
+		tls.VerifAttach(u.Conn, &tls.VerifPlan{Yield: func(point string) { time.Sleep(delays[int(delayIdx.Add(1))%len(delays)]) }})
 		var wg sync.WaitGroup
 		errs := make([]error, 3+rg.Intn(3))
 		for k := range errs {
